@@ -571,6 +571,7 @@ class _FromBits:
                 ]
             )
         elif self._target_type is bool or self._target_type is CohdlBool:
+            assert bv.width == 1, "cannot deserialize BitVector to bool, width is not 1"
             return qualifier[CohdlBool](bv[0])
         else:
             assert (
